@@ -162,7 +162,7 @@ pub fn c11(tier: Tier, seed: u64) -> i32 {
     let acc = run_histories(
         seed,
         per_shard,
-        move |_r| HistCfg { ops: 150, spl_only: false, w_swap: 22, w_liq: 22, w_fees: 6, w_lifecycle: 3, w_clock: 6, w_setters: 1, w_reward: 40, ..Default::default() },
+        move |_r| HistCfg { ops: 150, spl_only: false, seed_growth: true, w_swap: 22, w_liq: 22, w_fees: 6, w_lifecycle: 3, w_clock: 6, w_setters: 1, w_reward: 40, ..Default::default() },
         || vec![Box::new(C11::default()) as Box<dyn Monitor>],
     );
     rep.acc = acc;
